@@ -32,12 +32,12 @@ def run(ctx, whats, nbeh, depth, judge="C07"):
     behs[5] = [c("arm"), c("create", 2, 1), c("create", 1, 1), c("addX", 1), c("td", 1), c("release"), c("wait"),
                c("arm"), c("update", 2, 2), c("remX", 1), c("destroy", 1), c("release"), c("wait")]
     # the same beginning, but nobody destroys the input: once the foreign finalizer is gone the controller must clean the output up
-    # although the input never carried its finalizer (configurations 5 and 8: ignore-teardown-until / -while; 14 configurations)
-    for idx in (19, 22):
+    # although the input never carried its finalizer (configurations 5 and 8: ignore-teardown-until / -while; 17 configurations)
+    for idx in (22, 25):
         if len(behs) > idx:
             behs[idx] = [c("arm"), c("create", 2, 1), c("create", 1, 1), c("addX", 1), c("td", 1), c("release"), c("wait"),
                          c("remX", 1), c("wait")]
-    # optional mapping (configuration 11 of 14): an input that carries the controller's finalizer stops being mapped, then is torn down
+    # optional mapping (configuration 11 of 17): an input that carries the controller's finalizer stops being mapped, then is torn down
     if len(behs) > 11:
         behs[11] = [c("create", 1, 1), c("create", 2, 2), c("wait"), c("update", 1, 3), c("wait"), c("td", 1), c("wait")]
     ctx.cov["directed_known_finding_scenarios"] = 1
